@@ -1794,6 +1794,9 @@ func (e *specEnv) expandSpecFun(d *Decl, args []Expr) sval {
 // pureCall: a program function declared pure is an uninterpreted function of its arguments
 func (e *specEnv) pureCall(fn *ssa.Function, d *Decl, args []Expr) sval {
 	vc := e.vc
+	if d.Has("trusted") {
+		vc.usedTrusted[d.Name] = true
+	}
 	name := pureFnName(d.Name, 0)
 	var sorts, terms []string
 	sig := fn.Signature
@@ -1846,6 +1849,9 @@ func (P *Program) ifaceMethodSig(key string) (*types.Signature, types.Type) {
 
 func (e *specEnv) pureIfaceCall(d *Decl, sig *types.Signature, recvT types.Type, args []Expr) sval {
 	vc := e.vc
+	if d.Has("trusted") {
+		vc.usedTrusted[d.Name] = true
+	}
 	ptypes := []types.Type{recvT}
 	for i := 0; i < sig.Params().Len(); i++ {
 		ptypes = append(ptypes, sig.Params().At(i).Type())
